@@ -28,12 +28,28 @@ pub fn check_c12() -> i32 {
                 sliding triples encoded back to back are read back in \
                 sequence. Interned handles: see C15. distinct = values"
         .into();
-    rep.assumptions = vec![
-        "default feature set (the optional smallvec/bitvec impls are not \
-         compiled into this harness)"
-            .into(),
-    ];
-    let ctx = vt::ser_ctx();
+    rep.rule.push_str(
+        "; plus, for every value, every construction variant of it (ring layouts, insertion orders, capacities) and \
+         generated derived shapes with #[serialize(skip)] on every subset of 1-3 fields. OPTIONAL FEATURES (second \
+         build, binary vopt): SmallVec<[T;N]> (N = 0,1,2,4; inline, at the boundary, spilled, spilled-then-shrunk) and \
+         BitVec<T,O> for T in {u8,u16,u32,usize} x O in {Lsb0,Msb0}: every bit string to length 10 and boundary \
+         lengths 15..129 with distinguishing patterns, aligned and behind a non-zero head offset, alone and nested",
+    );
+    let mut ctx = vt::ser_ctx();
+    match run_opt("ser", 0) {
+        Ok(o) => {
+            rep.extra.insert(
+                "optional_feature_build".into(),
+                json!({"types": o.types, "values": o.values, "adjacent_pairs": o.pairs, "triples": o.triples, "variants": o.variants}),
+            );
+            ctx.values += o.values;
+            ctx.pairs += o.pairs;
+            ctx.triples += o.triples;
+            ctx.types += o.types;
+            ctx.bad.extend(o.bad);
+        }
+        Err(e) => rep.machinery_errors.push(e),
+    }
     rep.evaluations = ctx.values + ctx.pairs + ctx.triples;
     rep.distinct_nontrivial = ctx.values;
     rep.extra.insert("types".into(), json!(ctx.types));
@@ -49,6 +65,102 @@ pub fn check_c12() -> i32 {
         });
     }
     rep.finish()
+}
+
+
+// ---------------------------------------------------------------------------
+// the `smallvec` / `bitvec` feature builds (binary `vopt`, one process per type)
+// ---------------------------------------------------------------------------
+
+fn vopt_exe() -> std::path::PathBuf {
+    std::env::current_exe().expect("current exe").parent().unwrap().join("vopt")
+}
+
+fn strip_addr(s: &str) -> String {
+    // `BitVec`'s Debug prints its buffer address
+    let mut out = String::new();
+    let mut rest = s;
+    while let Some(i) = rest.find("addr: 0x") {
+        out.push_str(&rest[..i]);
+        let tail = &rest[i + 8..];
+        let end = tail.find(|c: char| !c.is_ascii_hexdigit()).unwrap_or(tail.len());
+        rest = tail[end..].strip_prefix(", ").unwrap_or(&tail[end..]);
+    }
+    out.push_str(rest);
+    out
+}
+
+struct Opt {
+    types: u64,
+    values: u64,
+    pairs: u64,
+    triples: u64,
+    variants: u64,
+    digests: Vec<String>,
+    bad: Vec<String>,
+}
+
+/// Runs `vopt <what> i` for every type of the optional-feature table.
+fn run_opt(what: &str, salt: usize) -> Result<Opt, String> {
+    let exe = vopt_exe();
+    if !exe.exists() {
+        return Err(format!("{} is missing (cargo build -p vopt)", exe.display()));
+    }
+    unsafe {
+        std::env::set_var("VH_PROC_SALT", "y".repeat(salt * 777 + 1));
+    }
+    let t = std::time::Duration::from_secs(600);
+    let names = match crate::report::run_exe(&exe, &["names".into()], t) {
+        Child::Done(v) => v["names"]
+            .as_array()
+            .map(|a| a.iter().map(|x| x.as_str().unwrap_or("").to_string()).collect::<Vec<_>>())
+            .unwrap_or_default(),
+        _ => return Err("vopt names failed".into()),
+    };
+    let jobs = std::sync::Arc::new(std::sync::Mutex::new((0..names.len()).collect::<Vec<_>>()));
+    let res = std::sync::Arc::new(std::sync::Mutex::new(Vec::new()));
+    let mut hs = Vec::new();
+    for _ in 0..crate::report::threads().min(names.len().max(1)) {
+        let (jobs, res, exe, what) = (jobs.clone(), res.clone(), exe.clone(), what.to_string());
+        hs.push(std::thread::spawn(move || {
+            loop {
+                let Some(i) = jobs.lock().unwrap().pop() else { break };
+                let r = crate::report::run_exe(&exe, &[what.clone(), i.to_string()], t);
+                res.lock().unwrap().push((i, r));
+            }
+        }));
+    }
+    for h in hs {
+        let _ = h.join();
+    }
+    let mut res = std::mem::take(&mut *res.lock().unwrap());
+    res.sort_by_key(|r| r.0);
+    let mut o = Opt { types: 0, values: 0, pairs: 0, triples: 0, variants: 0, digests: vec![], bad: vec![] };
+    for (i, r) in res {
+        match r {
+            Child::Done(v) => {
+                o.types += v["types"].as_u64().unwrap_or(0);
+                o.values += v["values"].as_u64().unwrap_or(0);
+                o.pairs += v["pairs"].as_u64().unwrap_or(0);
+                o.triples += v["triples"].as_u64().unwrap_or(0);
+                o.variants += v["variants"].as_u64().unwrap_or(0);
+                o.digests.push(v["digest"].as_str().unwrap_or("").to_string());
+                let mut seen = 0;
+                for b in v["bad"].as_array().into_iter().flatten() {
+                    if seen < 4 {
+                        o.bad.push(strip_addr(b.as_str().unwrap_or("")));
+                    }
+                    seen += 1;
+                }
+            }
+            Child::Crashed(m) => o.bad.push(format!(
+                "{}: the process died while values of this type were encoded / decoded / hashed: {m}",
+                names[i]
+            )),
+            Child::TimedOut => o.bad.push(format!("{}: timed out", names[i])),
+        }
+    }
+    Ok(o)
 }
 
 fn hash_ctx() -> Ctx { vt::hash_ctx() }
@@ -118,7 +230,38 @@ pub fn check_c13() -> i32 {
             .into(),
         "128-bit SipHash collisions are not considered".into(),
     ];
-    let ctx = hash_ctx();
+    rep.rule.push_str(
+        "; every construction variant of every value hashes like it. OPTIONAL FEATURES (binary vopt): the SmallVec / \
+         BitVec domains of C12, per-type digests compared across 3 processes",
+    );
+    let mut ctx = hash_ctx();
+    let own_digest = ctx.digest;
+    let mut opt_digests: Vec<Vec<String>> = Vec::new();
+    for salt in 0..3 {
+        match run_opt("hash", salt) {
+            Ok(o) => {
+                if salt == 0 {
+                    rep.extra.insert(
+                        "optional_feature_build".into(),
+                        json!({"types": o.types, "values": o.values, "adjacent_pairs": o.pairs, "variants": o.variants}),
+                    );
+                    ctx.values += o.values;
+                    ctx.pairs += o.pairs;
+                    ctx.types += o.types;
+                    ctx.bad.extend(o.bad);
+                }
+                opt_digests.push(o.digests);
+            }
+            Err(e) => {
+                rep.machinery_errors.push(e);
+                break;
+            }
+        }
+    }
+    if opt_digests.len() == 3 && (opt_digests[0] != opt_digests[1] || opt_digests[0] != opt_digests[2]) {
+        ctx.bad.push("seeded hashes of SmallVec / BitVec values differ between processes".into());
+    }
+    ctx.digest = own_digest;
     rep.evaluations = ctx.values + ctx.pairs;
     rep.distinct_nontrivial = ctx.values;
     rep.extra.insert("types".into(), json!(ctx.types));
@@ -186,8 +329,57 @@ pub fn check_c14() -> i32 {
                 types + query keys"
         .into();
     rep.assumptions = vec!["128-bit collisions are not considered".into()];
-    let ids = vt::type_ids();
-    let mut sorted: Vec<(u128, &str)> = ids.iter().map(|(n, i)| (*i, *n)).collect();
+    let mut ids: Vec<(String, u128)> =
+        vt::type_ids().into_iter().map(|(n, i)| (n.replace(' ', ""), i)).collect();
+    // the smallvec / bitvec feature build: ids computed by `vopt` in three
+    // processes; merged with the main universe (same spelling = same type)
+    let mut opt_runs: Vec<Vec<(String, u128)>> = Vec::new();
+    for salt in 0..3usize {
+        unsafe {
+            std::env::set_var("VH_PROC_SALT", "z".repeat(salt * 500 + 1));
+        }
+        match crate::report::run_exe(&vopt_exe(), &["ids".into()], std::time::Duration::from_secs(120)) {
+            Child::Done(v) => opt_runs.push(
+                v["ids"]
+                    .as_array()
+                    .into_iter()
+                    .flatten()
+                    .map(|p| {
+                        (
+                            p[0].as_str().unwrap_or("").replace(' ', ""),
+                            u128::from_str_radix(p[1].as_str().unwrap_or("0"), 16).unwrap_or(0),
+                        )
+                    })
+                    .collect(),
+            ),
+            _ => {
+                rep.machinery_errors.push("vopt ids failed (cargo build -p vopt)".into());
+                break;
+            }
+        }
+    }
+    if opt_runs.len() == 3 {
+        if opt_runs[0] != opt_runs[1] || opt_runs[0] != opt_runs[2] {
+            rep.violation(Violation {
+                what: "stable type ids of SmallVec / BitVec types differ between processes".into(),
+                tags: vec![],
+                replay: json!({"check": "c14"}),
+            });
+        }
+        rep.extra.insert("optional_feature_types".into(), json!(opt_runs[0].len()));
+        for (n, i) in &opt_runs[0] {
+            match ids.iter().find(|(m, _)| m == n) {
+                Some((_, j)) if j == i => {}
+                Some((_, j)) => rep.violation(Violation {
+                    what: format!("type `{n}` has id {j:032x} in the default build and {i:032x} with the optional features"),
+                    tags: vec![],
+                    replay: json!({"check": "c14"}),
+                }),
+                None => ids.push((n.clone(), *i)),
+            }
+        }
+    }
+    let mut sorted: Vec<(u128, &str)> = ids.iter().map(|(n, i)| (*i, n.as_str())).collect();
     sorted.sort();
     for w in sorted.windows(2) {
         if w[0].0 == w[1].0 {
